@@ -628,21 +628,18 @@ func (vt *Model) rep(ps int) {
 
 // Set top and bottom margins CSI Ps ; Ps r
 func (vt *Model) decstbm(pm [][]int) {
-	var (
-		top row
-		bot row
-	)
-	switch len(pm) {
-	case 0:
-		top = 0
-		bot = row(vt.height()) - 1
-	case 1:
-		top = row(pm[0][0] - 1)
-		bot = row(vt.height()) - 1
-	case 2:
-		top = row(pm[0][0] - 1)
-		bot = row(pm[1][0] - 1)
+	// An omitted or zero parameter means the default: the first line for
+	// the top margin, the last line for the bottom margin. A bottom margin
+	// beyond the screen is the last line
+	t, b := 1, vt.height()
+	if len(pm) > 0 && pm[0][0] > 0 {
+		t = pm[0][0]
 	}
+	if len(pm) > 1 && pm[1][0] > 0 && pm[1][0] < b {
+		b = pm[1][0]
+	}
+	top := row(t - 1)
+	bot := row(b - 1)
 	if top >= bot {
 		return
 	}
